@@ -167,7 +167,7 @@ def gen(rng, tier, info):
     # every kind of output (terminal / pipe x forced / unforced / plain formatter) on all sequences up to length 2
     for nsec in (1, 2, 3):
         al = ops_for(nsec)
-        for k in range(0, 3):
+        for k in range(0, 3 if tier != "search" else 2):
             for seq in itertools.product(al, repeat=k):
                 for out, ansi in sorted(OUTS.items()):
                     cases.append({"ansi": ansi, "out": out, "ops": [[0]] * nsec + [list(o) for o in seq]})
